@@ -9,6 +9,9 @@ from .c04 import error_exits, real_source, _offset_stores
 from . import fmtfeat
 
 RULES = {
+    "C07.6": "the reader accepts what the writer acknowledged: every comparison in Block::read (the function recovery scans with) is one of - header length against a constant, "
+             "`entry end > file length`, the checksum comparison; any other bound on the entry (the block's limit, the next block's start, a non-strict comparison with the file "
+             "length) can be met exactly by a valid entry and makes recovery drop the last entry of an exactly full block",
     "C07.5": "recovery yields nothing that was not acknowledged (= C04.3d): a batch that fails after some of its entries reached the file returns Err, so none of its entries may "
              "be readable after a restart; the rollback zeroes the header of EVERY planned entry (not only the first of each block), because the next acknowledged append can fill "
              "exactly the first slot and the recovery scan then runs on into the stale, fully valid entries behind it",
@@ -422,6 +425,53 @@ def check_open_errors(ctx, facts):
     ctx.floor("C07.2", "error exits on the open path", n, 1)
 
 
+def check_reader_rejections(ctx, facts, rid="C07.6"):
+    """Block::read turns an entry down only for a reason the writer cannot produce: a header length of 0 / beyond the header
+    area, an entry that runs past the end of the FILE, a checksum mismatch (and constant-vs-constant tests the compiler
+    leaves).  Every comparison in the function is classified; one that fits no class is reported (a reader that compares
+    the entry's end with anything the writer fills exactly - the block, the next block's start - drops the last entry of
+    an exactly full block, and everything recovery counts after it)."""
+    try:
+        b = facts.body("block::Block::read")
+    except Exception:
+        ctx.anchor_missing(rid, "block::Block::read")
+        return
+    ctx.saw_body(b)
+    F = common.short_fn(b.name)
+    n = 0
+    for site, st in b.assigns():
+        rv = st["rv"]
+        if not (rv["k"] == "bin" and str(rv["op"]) in ("Lt", "Le", "Gt", "Ge", "Eq", "Ne")):
+            continue
+        ea, eb = strip_refs(expr(b, rv["a"])), strip_refs(expr(b, rv["b"]))
+        sa, sb = show(ea, 8), show(eb, 8)
+        ca, cb = fmtfeat.const_eval(ea), fmtfeat.const_eval(eb)
+        cls = None
+        if ca is not None and cb is not None:
+            cls = "constants"
+        elif (cb is not None or ca is not None) and re.search(r"BitOr\(.*\[0\], Shl\(.*\[1\], 8\)\)", sa if cb is not None else sb):
+            cls = "header length against a constant"
+        elif str(rv["op"]) in ("Eq", "Ne") and ("checksum" in sa and "checksum" in sb):
+            cls = "checksum"
+        elif str(rv["op"]) in ("Gt", "Ge", "Lt", "Le") and (re.match(r"^len\(", sb) or re.match(r"^len\(", sa) or re.search(r"(storage|mmap)[^,]*\)*\.?len|::len\(", sa + " " + sb)):
+            # entry end against the file length: only `end > len` (strictly) may reject
+            cls = "entry end against the file length"
+            end_left = not re.match(r"^len\(", sa) and "len(" not in sa.split(",")[0][:4]
+            op = str(rv["op"])
+            op = op if end_left else {"Gt": "Lt", "Ge": "Le", "Lt": "Gt", "Le": "Ge"}[op]
+            if op in ("Ge", "Lt"):
+                cls = None      # `end >= len` / `end < len`: an entry that ends with the file is a valid entry
+        n += 1
+        if cls:
+            ctx.ok(rid, F, "comparison at line %s: %s" % (site.line, cls), b.relfile, site.line)
+        else:
+            ctx.violate(rid, F, "reader-rejects-on-untriaged-condition", b.relfile, site.line,
+                        "Block::read compares %s %s %s: neither the header-length sanity test, nor `entry end > file length`, nor the checksum comparison. A bound the writer can "
+                        "meet exactly (the block's limit, the next block's start, `>=` / `<` against the file length) rejects the last entry of an exactly full block or file; "
+                        "recovery then truncates the block there" % (sa[:60], rv["op"], sb[:60]))
+    ctx.floor(rid, "comparisons in Block::read", n, 3)
+
+
 def run(ctx):
     for k, v in RULES.items():
         ctx.rule(k, v)
@@ -437,6 +487,7 @@ def run(ctx):
     check_open_errors(ctx, facts)
     from .c04 import check_rollback_zeroing
     check_rollback_zeroing(ctx, facts, rid="C07.5")
+    check_reader_rejections(ctx, facts, rid="C07.6")
     ctx.assume("crash model of the property: completed write syscalls persist across a process crash; what recovery reconstructs from the bytes is covered only by the layout/scan clauses of C06")
     ctx.assume("the discarded result of the positional write in FdBackend::write is reported under C04.4 (known finding), not repeated here")
     return {
